@@ -62,6 +62,28 @@ theorem step_preserves (s : State) (op : Op) (h : PickInv s) :
   | wadv k => exact step_wadv_inv false s k h
   | closeweb k => exact step_closeweb_inv false s k h
 
+/-- The same holds for the ladder before the two fixes: they changed which piece is asked for in
+sequential mode, the safety invariant was never at stake. -/
+theorem step_preserves_legacy (s : State) (op : Op) (h : PickInv s) :
+    ∀ r ∈ step true s op, ∃ s' o, r = .ok (s', o) ∧ PickInv s' := by
+  cases op with
+  | connect => exact step_connect_inv true s h
+  | «have» p i => exact step_have_inv true s p i h
+  | afast p i => exact step_afast_inv true s p i h
+  | unchoke p => exact step_unchoke_inv true s p h
+  | choke p => exact step_choke_inv true s p h
+  | snub p => exact step_snub_inv true s p h
+  | cancel p => exact step_cancel_inv true s p h
+  | disc p => exact step_disc_inv true s p h
+  | pick p => exact step_pick_inv true s p h
+  | pdone p => exact step_pdone_inv true s p h
+  | wwrite i => exact step_wwrite_inv true s i h
+  | wok i web => exact step_wok_inv true s i web h
+  | wfail i => exact step_wfail_inv true s i h
+  | pickweb k => exact step_pickweb_inv true s k h
+  | wadv k => exact step_wadv_inv true s k h
+  | closeweb k => exact step_closeweb_inv true s k h
+
 /-- A finite event history: the operations and, for each, one of its admissible outcomes. -/
 inductive Run : State → List Op → State → Prop
   | nil (s : State) : Run s [] s
